@@ -13,6 +13,10 @@ T: a run that differs is not judged by the harness: its recorded trace is decide
    worker's control flow).  A clause of this property broken => VIOLATION; none broken =>
    MODEL-DRIFT (the property held; level B no longer transcribes the code).  A seeded sample
    of the conforming runs is sent through the same monitor (must be clean).
+Production and end-to-end phases (the public emit path): entry points x template forms (with /
+   without extension, without directory, invalid -> inert emitter, a directory that cannot exist)
+   x separator (one byte, "\r\n") x the way the writer ends its output (spec/FileFraming.tla:
+   what emit queues = the complete bytes E(e)); directories shared with hostile neighbours.
 """
 import json
 import os
@@ -145,12 +149,26 @@ def file_emitter_phase(ctx, prop, clauses=("records",), only=None, seed=None):
     scen = sorted(vlib.iter_printed(r.out_path, "SCEN"))
     if len(scen) != r.distinct or not scen:
         raise vlib.ToolError("TLC printed %d scenario environments for %d states" % (len(scen), r.distinct))
+
+    def flat(text):
+        # the environment, with the separator's bytes and the framing table next to it
+        d = json.loads(text)
+        return dict(d["env"], sepBytes=d["sepBytes"], framing=d["framing"])
+    # a seeded sample, stratified by the template form (an inert emitter's scenarios are few)
+    by_tpl = {}
+    for i, text in enumerate(scen):
+        by_tpl.setdefault(json.loads(text)["env"].get("tpl", "full"), []).append(i)
+    share = {"full": 0.64, "noext": 0.15, "nodir": 0.15, "invalid": 0.06}
     if only is not None:
         pick = [only]
-    elif ctx.quick:
-        pick = sorted(random.Random(seed).sample(range(len(scen)), 100))
     else:
-        pick = sorted(random.Random(seed).sample(range(len(scen)), min(len(scen), 4000)))
+        total = 100 if ctx.quick else min(len(scen), 4000)
+        rnd = random.Random(seed)
+        pick = []
+        for t in sorted(by_tpl):
+            k = min(len(by_tpl[t]), max(1, int(round(total * share.get(t, 0.1)))))
+            pick += rnd.sample(by_tpl[t], k)
+        pick = sorted(pick)
     nproc = 1 if only is not None else (4 if ctx.quick else 8)
     bindir = ctx.cargo_build("vh_file", bins=["c07_file_inj"])
     exe = os.path.join(bindir, "c07_file_inj")
@@ -159,39 +177,48 @@ def file_emitter_phase(ctx, prop, clauses=("records",), only=None, seed=None):
         sp = os.path.join(ctx.out, "inj-scen-%d.ndjson" % k)
         with open(sp, "w") as f:
             for i in pick[k::nproc]:
-                f.write(json.dumps({"sid": i, "scen": json.loads(scen[i])}) + "\n")
+                f.write(json.dumps({"sid": i, "scen": flat(scen[i])}) + "\n")
         parts.append((sp, os.path.join(ctx.out, "inj-trace-%d.ndjson" % k),
                       os.path.join(ctx.out, "inj-index-%d.json" % k)))
     with ThreadPoolExecutor(nproc) as ex:
         list(ex.map(lambda a: ctx.run_harness(exe, list(a), timeout=2400,
                                               env={"VERIF_SEED": str(seed)}), parts))
-    trace = os.path.join(ctx.out, "inj-trace.ndjson")
+    # the recorded scenarios, split by record size: the one-byte separator (records of 3 / 4
+    # bytes) and the multi-byte ones (records of 8 bytes: MCFileEmitterTraceSep)
+    traces = {"": os.path.join(ctx.out, "inj-trace.ndjson"), "Sep": os.path.join(ctx.out, "inj-trace-sep.ndjson")}
     meta = {"scenarios": 0, "events": 0, "emits": 0, "flushes": 0}
     scen_of = {}
-    with open(trace, "w") as fo:
-        for _, tp, ip in parts:
-            with open(tp) as f:
-                for line in f:
-                    if not line.startswith('{"ev":"fin"'):
-                        fo.write(line)
-            m = json.load(open(ip))
-            for k in meta:
-                meta[k] += m[k]
-            for x in m["index"]:
-                scen_of[x["sid"]] = x["scen"]
-            os.remove(tp)
+    outs = {k: open(p, "w") for k, p in traces.items()}
+    for _, tp, ip in parts:
+        cur = outs[""]
+        with open(tp) as f:
+            for line in f:
+                if line.startswith('{"ev":"fin"'):
+                    continue
+                if '"ev":"reset"' in line[:60]:
+                    cur = outs["Sep" if json.loads(line).get("wide") else ""]
+                cur.write(line)
+        m = json.load(open(ip))
+        for k in meta:
+            meta[k] += m[k]
+        for x in m["index"]:
+            scen_of[x["sid"]] = x["scen"]
+        os.remove(tp)
+    for fo in outs.values():
         fo.write('{"ev":"fin"}\n')
+        fo.close()
     vs = {}
-    for i, shard in enumerate(shards(trace, os.path.join(ctx.out, "inj-shard"), 250000)):
-        rr = ctx.validate_trace("MCFileEmitterTrace", "FileEmitterTrace.cfg", shard,
-                                label="tv-emitter-%d" % i, timeout=1500, xmx="4g")
-        if rr.violated:
-            raise vlib.ToolError("FileEmitterTrace.tla did not accept the recorded trace (%s):\n%s" % (
-                rr.violated, vlib.tail_of(rr.out_path, 15)))
-        for p in vlib.iter_printed(rr.out_path, "VERDICT"):
-            v = json.loads(p)
-            vs[v["sid"]] = v
-        os.remove(shard)
+    for kind, trace in traces.items():
+        for i, shard in enumerate(shards(trace, os.path.join(ctx.out, "inj-shard%s" % kind), 250000)):
+            rr = ctx.validate_trace("MCFileEmitterTrace" + kind, "FileEmitterTrace%s.cfg" % kind, shard,
+                                    label="tv-emitter%s-%d" % (kind, i), timeout=1500, xmx="4g")
+            if rr.violated:
+                raise vlib.ToolError("FileEmitterTrace.tla did not accept the recorded trace (%s):\n%s" % (
+                    rr.violated, vlib.tail_of(rr.out_path, 15)))
+            for p in vlib.iter_printed(rr.out_path, "VERDICT"):
+                v = json.loads(p)
+                vs[v["sid"]] = v
+            os.remove(shard)
     if len(vs) != meta["scenarios"]:
         raise vlib.ToolError("monitor printed %d verdicts for %d end-to-end scenarios" % (
             len(vs), meta["scenarios"]))
@@ -202,7 +229,11 @@ def file_emitter_phase(ctx, prop, clauses=("records",), only=None, seed=None):
            "with_truncation": sum(1 for v in vs.values() if v["ntrunc"] > 0),
            "with_permanent_failure": sum(1 for v in vs.values() if v["nfailed"] > 0),
            "events_reported_written": sum(v["nacked"] for v in vs.values()),
-           "with_failing_writer": sum(1 for v in vs.values() if v["nfmt"] > 0)}
+           "with_failing_writer": sum(1 for v in vs.values() if v["nfmt"] > 0),
+           "with_inert_emitter": sum(1 for v in vs.values() if v.get("ndisc", 0) > 0),
+           "template_forms": {t: sum(1 for x in scen_of.values() if x.get("tpl", "full") == t) for t in sorted(by_tpl)},
+           "separators_with_events_written": sorted({scen_of[sid].get("sep", "nl") for sid, v in vs.items() if v["nacked"] > 0}),
+           "template_forms_with_events_written": sorted({scen_of[sid].get("tpl", "full") for sid, v in vs.items() if v["nacked"] > 0})}
     ctx.cov["file_emitter_e2e"] = cov
     ndrift = 0
     nhit = 0
@@ -212,11 +243,13 @@ def file_emitter_phase(ctx, prop, clauses=("records",), only=None, seed=None):
         sc = scen_of[sid]
         if hit:
             nhit += 1
-            env_s = "cap=%s maxFiles=%s maxSize=%s reuse=%s fault=%s@%s stall=%s" % (
+            env_s = "cap=%s maxFiles=%s maxSize=%s reuse=%s fault=%s@%s stall=%s%s" % (
                 sc["cap"], sc["maxFiles"], sc["maxSize"], sc["reuse"], sc["fault"]["kind"],
-                sc["fault"]["at"], sc["stall"])
+                sc["fault"]["at"], sc["stall"],
+                (" tpl=%s" % sc["tpl"] if sc.get("tpl", "full") != "full" else "") +
+                (" sep=%s" % sc["sep"] if sc.get("sep", "nl") != "nl" else ""))
             ctx.violation("%s %s broken by the real FileSet end to end; %s" % (prop, ",".join(hit), env_s),
-                          {"inj": {"sid": sid, "seed": seed}, "scen": sc, "clauses": hit},
+                          {"inj": {"sid": sid, "seed": seed}, "scen": {k: v for k, v in sc.items() if k != "framing"}, "clauses": hit},
                           signature="%s e2e %s %s" % (prop, ",".join(hit), env_s))
             by_clause = ctx.cov.setdefault("violations_by_clause", {})
             for h in hit:
@@ -228,7 +261,10 @@ def file_emitter_phase(ctx, prop, clauses=("records",), only=None, seed=None):
     if only is None and not nhit and not (
             cov["with_emits_during_stall"] and cov["with_truncation"] and
             cov["with_permanent_failure"] and cov["events_reported_written"] and
-            cov["with_failing_writer"]):
+            cov["with_failing_writer"] and
+            (cov["with_inert_emitter"] or "invalid" not in by_tpl) and
+            set(cov["template_forms_with_events_written"]) >= set(by_tpl) - {"invalid"} and
+            len(cov["separators_with_events_written"]) >= 2):
         raise vlib.ToolError("vacuity: end-to-end scenarios without stall/truncation/failure: %s" % cov)
     if ndrift:
         vlib.log("MODEL-DRIFT: %d end-to-end scenarios in which the queue of FileEmitterTrace.tla "
@@ -246,7 +282,12 @@ PROD_OPS = ["mkdir", "list", "openex", "syncdir", "len", "remove", "opennew", "w
             "flush", "sync", "restart", "fmtfail-partial", "fmtfail-empty"]
 
 
-def production_phase(ctx, prop, mine, only=None):
+PROD_ENTRIES = ["set_with_writer", "set().writer()", "set() default JSON writer", "template without extension",
+                "invalid template (no file name)", "invalid template (not UTF-8), default writer",
+                "template without directory", "directory cannot exist (a file is in the way)"]
+
+
+def production_phase(ctx, prop, mine, only=None, only_entry=None):
     """The production side of every trait the crate has a test double for (StdFilesystem,
     StdFile, SystemClock, RandRng) and the public entry points (set, set_with_writer,
     FileSetBuilder::writer; custom and default JSON writer, writers that fail midway):
@@ -277,19 +318,27 @@ def production_phase(ctx, prop, mine, only=None):
     tj = os.path.join(ctx.out, "prod-json.ndjson")
     rp = os.path.join(ctx.out, "prod-report.json")
     scratch = os.path.join(ctx.out, "prod-scratch")
-    ctx.run_harness(os.path.join(bindir, "c10_file_prod"), [cases, tb, tj, rp, scratch, 8], timeout=2400)
+    extra = [PROD_ENTRIES.index(only_entry)] if only_entry in PROD_ENTRIES else []
+    ctx.run_harness(os.path.join(bindir, "c10_file_prod"), [cases, tb, tj, rp, scratch, 8] + extra, timeout=2400)
     shutil.rmtree(scratch, ignore_errors=True)
     rep = json.load(open(rp))
+    if rep["entries"] != PROD_ENTRIES:
+        raise vlib.ToolError("production run: the harness's entry points differ from PROD_ENTRIES")
     if rep["flush_failed"]:
         raise vlib.ToolError("production run: %d fault-free flushes did not complete" % rep["flush_failed"])
     vs = verdicts(ctx, tb, "tv-prod-bytes")
     vs.update(verdicts(ctx, tj, "tv-prod-json", module="MCFileSetTraceJson", cfg="FileSetTraceJson.cfg"))
+    # runs with a multi-byte separator (8-byte records)
+    vs.update(verdicts(ctx, tb + ".sep", "tv-prod-sep", module="MCFileSetTraceSep", cfg="FileSetTraceSep.cfg"))
     if len(vs) != rep["runs"]:
         raise vlib.ToolError("monitor printed %d verdicts for %d production runs" % (len(vs), rep["runs"]))
     ctx.cov["traces_validated_against_impl"] += rep["runs"]
-    ctx.cov["production_runs"] = {"runs": rep["runs"], "entry_points": rep["entries"], "ops": rep["ops"],
-                                  "skipped_period_change": rep["skipped_period_change"]}
     idx = {x["sid"]: x for x in rep["index"]}
+    by_sep = {}
+    for x in rep["index"]:
+        by_sep[x.get("sepf") or "nl"] = by_sep.get(x.get("sepf") or "nl", 0) + 1
+    ctx.cov["production_runs"] = {"runs": rep["runs"], "entry_points": rep["entries"], "ops": rep["ops"],
+                                  "skipped_period_change": rep["skipped_period_change"], "by_separator": by_sep}
     case_lines = open(cases).read().splitlines()
     nhit = 0
     for sid, bad in sorted(vs.items()):
@@ -298,10 +347,13 @@ def production_phase(ctx, prop, mine, only=None):
             nhit += 1
             x = idx[sid]
             case = json.loads(case_lines[x["line"] - 1])
-            what = "%s %s broken by the real FileSet on the real filesystem [%s]; %s" % (
-                prop, ",".join(hit), x["entry"], shape(case))
+            sepf = x.get("sepf") or "nl"
+            wends = "/".join(h.get("we", "sep") for h in case["hist"] if h["op"] == "batch")
+            form = "" if sepf == "nl" and set(wends.split("/")) <= {"sep", "none"} else " separator=%s writer-ends=%s" % (sepf, wends)
+            what = "%s %s broken by the real FileSet on the real filesystem [%s%s]; %s" % (
+                prop, ",".join(hit), x["entry"], form, shape(case))
             ctx.violation(what, {"prod": {"entry": x["entry"]}, "case": case, "clauses": hit},
-                          signature="%s production %s entry=%s %s" % (prop, ",".join(hit), x["entry"], shape(case)))
+                          signature="%s production %s entry=%s%s %s" % (prop, ",".join(hit), x["entry"], form, shape(case)))
             by_clause = ctx.cov.setdefault("violations_by_clause", {})
             for h in hit:
                 by_clause[h] = by_clause.get(h, 0) + 1
@@ -309,6 +361,8 @@ def production_phase(ctx, prop, mine, only=None):
         missing = [o for o in PROD_OPS if not rep["ops"].get(o)]
         if missing:
             raise vlib.ToolError("vacuity: the production run never needed %s" % missing)
+        if "crlf" not in by_sep or "nl" not in by_sep:
+            raise vlib.ToolError("vacuity: the production run saw the separators %s only" % sorted(by_sep))
     if rep["prediction_mismatch"]:
         vlib.log("MODEL-DRIFT: %d production runs end in a directory that differs from spec/FileWorker.tla's"
                  % rep["prediction_mismatch"])
@@ -326,10 +380,10 @@ def run(ctx, prop, mine, cfgs, extra_runs=None):
     binname = "c10_fileset" if prop == "C10" else "c11_fileset"
     rc = ctx.replay_case()
     if rc is not None and "prod" in rc:
-        production_phase(ctx, prop, mine, only=rc["case"])
+        production_phase(ctx, prop, mine, only=rc["case"], only_entry=rc["prod"].get("entry"))
         return
     if rc is not None and "inj" in rc:
-        file_emitter_phase(ctx, prop, ("records",), only=rc["inj"]["sid"], seed=rc["inj"]["seed"])
+        file_emitter_phase(ctx, prop, ("records",) if prop == "C10" else ("roll",), only=rc["inj"]["sid"], seed=rc["inj"]["seed"])
         return
     if rc is not None and "random" in rc:
         bindir = ctx.cargo_build("vh_file", bins=[binname])
